@@ -207,6 +207,9 @@ class Engine:
     def __init__(self, repo, sidecar, feas_timeout_ms=150):
         self.repo = repo
         self.sidecar = sidecar
+        self.lemmas_used = set()
+        self.nonneg = set()       # ids of integer terms known to be >= 0 (bound indices, loop counters)
+        self._nonneg_keep = []    # (keeps the terms alive so that ids are not reused)
         self.feas_cache = {}
         self.spec_funcs = {}      # name -> (z3 func, param kinds, ret kind)
         self.spec_defined = set()
@@ -266,6 +269,34 @@ class Engine:
             body = ex.merge_block([s for s in c.fn.body
                                    if not (isinstance(s, ast.Expr) and isinstance(s.value, ast.Constant))])
             z3.RecAddDefinition(f, params, vl.simp(self.unwrap_kind(body, retk)))
+
+    def unfold_app(self, t):
+        """the definition of a recursive specification function applied to the arguments of *t*
+        (one unfolding), or None"""
+        if not hasattr(self, '_rec_by_decl'):
+            self._rec_by_decl = {f.name(): n for n, (f, _, _) in self.spec_funcs.items()
+                                 if not (self.sidecar.specs[n].options.get('uninterpreted') or n in self.inline_specs)}
+        if not z3.is_app(t):
+            return None
+        name = self._rec_by_decl.get(t.decl().name())
+        if name is None:
+            return None
+        c = self.sidecar.specs[name]
+        _, kinds, retk = self.spec_funcs[name]
+        ex = Exec(self, None, None, spec_mode=True)
+        ex.no_assume = True
+        ex.module = None
+        args = list(t.children())
+        env, j = {}, 0
+        for pname, ty in c.params:
+            n = len(self.kind_sorts(ty))
+            zs = args[j:j + n]
+            j += n
+            env[pname] = self.wrap_kind(zs[0] if n == 1 else zs, ty)
+        ex.env = env
+        body = ex.merge_block([st for st in c.fn.body
+                               if not (isinstance(st, ast.Expr) and isinstance(st.value, ast.Constant))])
+        return self.unwrap_kind(body, retk)
 
     def kind_sorts(self, ty):
         if ty == 'dict':
@@ -493,6 +524,21 @@ class Exec:
         if z3.is_false(cond):
             raise Infeasible()
         self.pc.append(cond)
+        # a specification predicate that is assumed to hold is also given unfolded once (its definition):
+        # the facts it stands for (dynamic types, lengths) then decide the case distinctions downstream
+        if not getattr(self, 'no_assume', False):
+            for c in (cond.children() if z3.is_and(cond) else [cond]):
+                if z3.is_app(c) and z3.is_bool(c) and c.num_args() > 0:
+                    try:
+                        u = self.eng.unfold_app(c)
+                    except Unsupported:
+                        u = None
+                    if u is not None:
+                        u = vl.simp(u)
+                        if z3.is_false(u):
+                            raise Infeasible()
+                        if not z3.is_true(u):
+                            self.pc.append(u)
 
     def feasible(self):
         from . import solve
@@ -539,7 +585,43 @@ class Exec:
         if getattr(self, 'entry_params', None) is not None:
             info.setdefault('params', self.entry_params)
             info.setdefault('contract', self.contract)
-        self.obligations.append(Obligation(name, kind, self.pc, goal, info))
+        pc = self.pc
+        if self.contract is not None and self.contract.uses and label:
+            # lemmas (proved separately, in the same run) given as facts to the obligations named
+            facts = []
+            for prefix, call in self.contract.uses:
+                if label.startswith(prefix):
+                    try:
+                        facts.append(self.lemma_instance(call))
+                    except Unsupported:
+                        pass     # (a hint that cannot be evaluated on this path is no hint)
+            if facts:
+                pc = list(self.pc) + [f for f in facts if not z3.is_true(f)]
+        self.obligations.append(Obligation(name, kind, pc, goal, info))
+
+    def lemma_instance(self, call):
+        """requires => ensures of a sidecar lemma at the given arguments (evaluated in the current state)"""
+        lem = self.eng.sidecar.lemmas.get(call.func.id) if isinstance(call.func, ast.Name) else None
+        if lem is None:
+            raise Unsupported('use(): %s is not a lemma' % ast.unparse(call.func))
+        sm = self.spec_mode
+        self.spec_mode = True
+        try:
+            args = [self.ev(a) for a in call.args]
+        finally:
+            self.spec_mode = sm
+        if len(args) != len(lem.params):
+            raise Unsupported('use(): arity of lemma %s' % lem.name)
+        sub = Exec(self.eng, None, None, spec_mode=True)
+        sub.no_assume = True
+        sub.fname = 'lemma.' + lem.name
+        for (pn, ty), a in zip(lem.params, args):
+            zs = self.eng.unwrap_kinds(a, ty)
+            sub.env[pn] = self.eng.wrap_kind(zs[0] if len(zs) == 1 else zs, ty)
+        req = [as_bool(sub.ev(r)) for r in lem.requires]
+        ens = [as_bool(sub.ev(e)) for _, e in lem.ensures]
+        self.eng.lemmas_used.add(lem.name)
+        return vl.simp(z3.Implies(z3.And(*req) if req else z3.BoolVal(True), z3.And(*ens)))
 
     def safe(self, cond, exc, what, node=None):
         """The operation raises *exc* unless *cond*.  If the contract allows the
@@ -993,14 +1075,17 @@ class Exec:
 
     def index_of(self, v, idx, node):
         self.safe(is_int(idx), 'TypeError', 'index type', node)
-        i = get_i(idx)
+        i = vl.simp(get_i(idx))
+        # an index known to be non-negative (a bound index of forall_idx/exists_idx, a loop counter) needs
+        # no wrap-around case
+        nonneg = i.get_id() in self.eng.nonneg or (z3.is_int_value(i) and i.as_long() >= 0)
         kind, seq = self.seq_parts(v, node)
         if kind is None:
             # dynamic: tuple or list (strings need their own path)
             if self.spec_mode:
                 seq = z3.If(is_tuple(v), get_items(v), get_elems(v))
                 n = z3.Length(seq)
-                j = z3.If(i < 0, i + n, i)
+                j = i if nonneg else z3.If(i < 0, i + n, i)
                 return seq[j]
             if self.branch(is_str(v)):
                 kind, seq = 'str', get_s(v)
@@ -1009,7 +1094,7 @@ class Exec:
                 seq = z3.If(is_tuple(v), get_items(v), get_elems(v))
                 kind = 'seq'
         n = z3.Length(seq)
-        j = vl.simp(z3.If(i < 0, i + n, i))
+        j = i if nonneg else vl.simp(z3.If(i < 0, i + n, i))
         self.safe(z3.And(j >= 0, j < n), 'IndexError', 'index in range', node)
         if kind == 'str':
             return VStr(z3.SubString(seq, j, 1))
@@ -1472,7 +1557,7 @@ BUILTIN_NAMES = {'len', 'isinstance', 'str', 'list', 'set', 'dict', 'tuple', 're
                  'zip', 'range', 'sorted', 'next', 'iter', 'bool', 'int', 'map', 'getattr', 'hasattr',
                  'cast', 'print', 'min', 'max', 'any', 'all', 'sum', 'repr', 'float', 'type',
                  # specification vocabulary
-                 'implies', 'has', 'old', 'forall_idx', 'exists_idx', 'is_str', 'is_int', 'is_none',
+                 'implies', 'has', 'old', 'at_iteration_start', 'forall_idx', 'exists_idx', 'is_str', 'is_int', 'is_none',
                  'is_tuple', 'is_list', 'is_float', 'is_bool', 'is_obj', 'is_inst', 'in_re',
                  'set_of_seq', 'set_add', 'set_union', 'set_where', 'subset', 'dict_has', 'dict_get', 'dict_keys', 'dict_values_str',
                  'mk', 'noop', 'norm_has', 'norm_get', 'reif_has', 'reif_get', 'dereif_has', 'dereif_get',
